@@ -178,7 +178,7 @@ func VerifC09_BindingPool() {
 					break
 				}
 			}
-		case 2: // the proxy resets the oldest live request (timeout; a one-way request is reset as soon as it was written)
+		case 2: // the oldest live request is reset (a timeout; for a one-way request: its encoding or its write failed, endStream resets it)
 			for _, r := range reqs {
 				if r.live {
 					r.sender.GetStream().ResetStream(types.StreamLocalReset)
